@@ -6,6 +6,8 @@ use chain_gang::util::Hash256;
 
 fn h256(b: &[u8]) -> Hash256 { let mut a = [0u8; 32]; a.copy_from_slice(b); Hash256(a) }
 
+pub fn tables(_w: &mut dyn std::io::Write) {}
+
 pub fn exec(op: &str, a: &[&str]) -> Option<String> {
     match op {
         // c19.validate <ts> <bits> <hash hex> <prev timestamps>
